@@ -446,6 +446,9 @@ func GenList(r *prng.R, idx int) ListSpec {
 			ni := r.Range(1, 3)
 			for k := 0; k < ni; k++ {
 				li := LineItemSpec{Text: sentenceNoEntities(r, 1, 5), Attrs: genLineItemAttrs(r)}
+				if ni > 1 && r.Bool(0.1) {
+					li.Text = "" // a text-less run between others (what a reader leaves for a lone tag)
+				}
 				if ns > 0 && r.Bool(0.2) {
 					li.Style = l.Styles[r.Intn(ns)].ID
 				}
